@@ -190,7 +190,10 @@ class HunksFam(Family):
                 j, i = rng.choice(cands)
                 foreign = rng.choice([b'100% garbage', b'%s', b'%(line)r', b'%d%%', b'printf("%d\\n", x);', b'{0}', b'{line}',
                                       b'', b'\t', b'\r', b'\t \t', b'garbage', b'diff --git a/x b/x', b'\\ no newline',
-                                      b'\\No newline at end of file', b'\x0b', b'\xa0x', b'@ -1 +1 @@', b'*** 1,2 ***'])
+                                      b'\\No newline at end of file', b'\x0b', b'\xa0x', b'@ -1 +1 @@', b'*** 1,2 ***',
+                                      # look-alikes of the three line prefixes in UTF-8: other spaces, other plus / minus signs
+                                      b'\xc2\xa0ctx', b'\xe2\x80\x83ctx', b'\xe3\x80\x80ctx', b'\xe2\x80\x8bctx', b'\xef\xbc\x8bplus', b'\xe2\x88\x92minus',
+                                      b'\xe2\x80\x93minus', b'\xef\xbc\x8dminus', b'\xef\xbb\xbf ctx', b'\xef\xbb\xbf+plus'])
                 dl = []
                 at = None
                 for jj, h in enumerate(hs):
